@@ -131,9 +131,16 @@ def _case_1d(case, spl):
             ref = rm.spline_eval(T, c, p, xs, der)
             ref2 = rm.spline_eval_scipy(T, c, p, xs, der)
             got_arr = s.eval(xs.copy(), der)
+            keep = (got_arr, got_arr.copy())
             got_vec = np.full(len(xs), np.nan)
             s.eval_vector(xs.copy(), got_vec, der)
             got_sc = np.array([s.eval(float(x), der) for x in xs])
+            other = s.eval(xs.copy(), 1 - der)
+            # a returned array must stay what it was: later evaluations of the same object must not write into it
+            ev["aliasing_checks"] = ev.get("aliasing_checks", 0) + 1
+            if np.shares_memory(keep[0], other) or not np.array_equal(keep[0], keep[1], equal_nan=True):
+                return _viol(cls, ev, neval, "C07:returned-array-overwritten-by-later-call", "%s: the array returned by Spline1D.eval(x, %d) was modified by later evaluations of the same spline" % (name, der),
+                             dict(wit0, der=der))
             for entry, got in (("eval-array", got_arr), ("eval_vector", got_vec), ("eval-scalar", got_sc)):
                 for i, (kind, x) in enumerate(pts):
                     tol = C * rm.EPS * (p + 1) * _local_scale(T, p, c, x, der) + 1e-300
@@ -170,6 +177,10 @@ def _case_1d(case, spl):
     # basis functions through BSplines[i]: non-negative, partition of unity, derivative sum zero, vs definition
     nb = basis.nbasis
     sub = pts if len(pts) <= 24 else pts[:4] + random.Random(case["seed"] + 1).sample(pts[4:], 20)
+    # history: a caller may scribble on the spline it was handed; asking again must give the basis function again
+    for i in range(nb):
+        tmp = basis[i]
+        tmp.coeffs[:] = -3.5
     splines = [basis[i] for i in range(nb)]
     for kind, x in sub:
         vals = np.array([b_.eval(float(x)) for b_ in splines])
@@ -231,6 +242,7 @@ def _case_2d(case, spl):
     x1 = np.array([x for _k, x in P1])
     x2 = np.array([x for _k, x in P2])
     cls, ev, neval = set(), {"values2d_compared": 0}, 0
+    retained = []
     h1, h2 = float(np.min(np.diff(br1))), float(np.min(np.diff(br2)))
     cmax = float(np.abs(Cf).max())
     wit = {"cfg1": case["cfg1"], "cfg2": case["cfg2"], "seed": case["seed"]}
@@ -241,6 +253,7 @@ def _case_2d(case, spl):
             rel = (p1 + 1) * (p2 + 1) + p1 * float(np.abs(T1).max()) / h1 + p2 * float(np.abs(T2).max()) / h2
             tol = C * rm.EPS * rel * cmax * ((2 * p1 * p1 / h1) if d1 else 1) * ((2 * p2 * p2 / h2) if d2 else 1)
             got_grid = s.eval(x1.copy(), x2.copy(), d1, d2)
+            retained.append((got_grid, got_grid.copy(), (d1, d2)))
             got_vec = np.full((len(x1), len(x2)), np.nan)
             s.eval_vector(x1.copy(), x2.copy(), got_vec, d1, d2)
             got_sc = np.array([[s.eval(float(a), float(b), d1, d2) for b in x2] for a in x1])
@@ -269,6 +282,12 @@ def _case_2d(case, spl):
                     return _viol(cls, ev, neval, "C07:2d-%s" % ("fast" if b1.cubic_uniform else "general"),
                                  "%s %s der=(%d,%d): max |diff| %.3g > tol %.3g (e.g. index %r)" % (name, entry, d1, d2, float(np.nanmax(err)), tol, (int(i), int(j))),
                                  dict(wit, entry=entry, der=[d1, d2]))
+    # arrays returned by earlier tensor-grid evaluations must not have been overwritten by the later ones
+    ev["aliasing_checks"] = len(retained)
+    for k, (arr, cp, dd) in enumerate(retained):
+        if not np.array_equal(arr, cp, equal_nan=True) or any(np.shares_memory(arr, o[0]) for o in retained[k + 1:]):
+            return _viol(cls, ev, neval, "C07:returned-array-overwritten-by-later-call", "%s: the array returned by Spline2D.eval(..., der=%r) was overwritten by a later evaluation of the same spline" % (name, dd),
+                         dict(wit, der=list(dd)))
     return result(HELD, cls=sorted(cls), events=ev, n_eval=neval)
 
 
